@@ -5,7 +5,7 @@ props = [json.loads(l) for l in open('/verif/properties.jsonl')]
 import os
 sys.path.insert(0, os.path.dirname(os.path.abspath(__file__)))
 from claims import CLAIMS, NA
-NA_REASON = 'check not built yet (see DESIGN.md for the plan)'
+NA_REASON = 'not claimed'
 m = {"version": 1,
  "setup_cmd": "true",
  "hooks": {"guard": "DRACO_VERIF", "enable": "no guarded hooks exist: CBMC's C++ front end rejects contract syntax, so contracts live in /verif/contracts and are bound to function bodies sliced from /repo's working tree on every run", "baseline_off_cmd": "/verif/run_baseline.sh", "source_commits": [], "add_only": True},
